@@ -1,5 +1,500 @@
-//! C06 harness — to be written (see /verif/mc/HARNESS_GUIDE.md).
+//! C06 — random forests are seed-reproducible and aggregate their member trees faithfully.
+//!
+//! Two exhaustive dimensions:
+//!  (a) configurations with the real seeded RNG: data catalogue x seeds 0..S x n_trees x m x tree
+//!      limits x keep_samples (every combination, no sampling);
+//!  (b) EVERY bootstrap outcome (and every feature-subsampling shuffle) of tiny forests, the draws
+//!      being answered through the `verif-hooks` seam.
+//! Member trees are recovered from the forest's serde form, deserialised into real tree objects and
+//! queried, so that the aggregation (plurality / mean, out-of-bag masks) is checked against them.
+
+use mc_core::{self as mc, json, Harness, Job, Plan, Tier, Value};
+use mc_sc::{dm, own_rng, release_rng, take_draws, Draw, RngMode};
+use smartcore::ensemble::random_forest_classifier::{RandomForestClassifier, RandomForestClassifierParameters};
+use smartcore::ensemble::random_forest_regressor::{RandomForestRegressor, RandomForestRegressorParameters};
+use smartcore::linalg::naive::dense_matrix::DenseMatrix;
+use smartcore::tree::decision_tree_classifier::{DecisionTreeClassifier, SplitCriterion};
+use smartcore::tree::decision_tree_regressor::DecisionTreeRegressor;
+
+struct C06;
+type DM = DenseMatrix<f64>;
+
+/// catalogue of lattice data sets: (name, rows, class labels, regression targets)
+fn catalogue() -> Vec<(&'static str, Vec<Vec<f64>>, Vec<f64>, Vec<f64>)> {
+    let mut v = Vec::new();
+    // n=4, p=1, two classes with ugly labels
+    v.push(("n4p1", vec![vec![0.0], vec![1.0], vec![2.0], vec![3.0]], vec![-3.0, -3.0, 7.0, 7.0], vec![0.0, 1.0, 3.0, 3.0]));
+    // n=5, p=2, ties in features
+    v.push(("n5p2", vec![vec![0.0, 1.0], vec![1.0, 1.0], vec![1.0, 0.0], vec![2.0, 2.0], vec![0.0, 2.0]], vec![2.0, 3.0, 2.0, 3.0, 3.0], vec![100.0, 101.5, 103.0, 100.0, 103.4]));
+    // n=6, p=2, three classes non-contiguous / negative labels
+    v.push(("n6p2c3", (0..6).map(|i| vec![(i % 3) as f64, (i / 3) as f64]).collect(), vec![-3.0, 7.0, 10.0, 10.0, -3.0, 7.0], vec![-1.0, 0.0, 2.0, 2.0, 0.0, -1.0]));
+    // n=8, p=3, constant feature, duplicates
+    v.push(("n8p3", (0..8).map(|i| vec![(i % 4) as f64, 1.0, ((i * 3) % 5) as f64]).collect(), vec![0.0, 1.0, 1.0, 0.0, 0.0, 1.0, 0.0, 1.0], (0..8).map(|i| ((i * 5) % 7) as f64 * 0.5).collect()));
+    // n=12, p=2, four classes, skewed
+    v.push(("n12p2c4", (0..12).map(|i| vec![(i % 4) as f64 + 0.5 * (i / 8) as f64, ((i * 7) % 6) as f64]).collect(), vec![1.0, 1.0, 1.0, 1.0, 1.0, 1.0, 5.0, 5.0, 5.0, 9.0, 9.0, 20.0], (0..12).map(|i| if i % 5 == 0 { 50.0 } else { i as f64 }).collect()));
+    // n=6, p=1 heavy ties
+    v.push(("n6p1ties", vec![vec![1.0], vec![1.0], vec![1.0], vec![2.0], vec![2.0], vec![3.0]], vec![-1.0, 1.0, -1.0, 1.0, 1.0, -1.0], vec![3.0, 1.0, 2.0, 5.0, 4.0, 0.0]));
+    v
+}
+
+fn queries(rows: &[Vec<f64>]) -> Vec<Vec<f64>> {
+    let p = rows[0].len();
+    let mut q = rows.to_vec();
+    // off-sample points: midpoints and outside the range
+    for i in 0..rows.len() {
+        q.push((0..p).map(|c| rows[i][c] + 0.5).collect());
+    }
+    q.push(vec![-10.0; p]);
+    q.push(vec![10.0; p]);
+    q
+}
+
+fn jbools(v: &Value) -> Option<Vec<Vec<bool>>> {
+    v.as_array().map(|a| a.iter().map(|r| r.as_array().map(|x| x.iter().map(|b| b.as_bool().unwrap_or(false)).collect()).unwrap_or_default()).collect())
+}
+
+struct Obs {
+    json: Value,
+    pred: Vec<f64>,
+    oob: Option<Vec<f64>>,
+}
+
+#[allow(clippy::too_many_arguments)]
+fn check_classifier(site: &str, ctx: &str, rows: &[Vec<f64>], y: &[f64], n_trees: usize, keep: bool, o: &Obs, q: &[Vec<f64>]) {
+    let n = rows.len();
+    let mut classes: Vec<f64> = y.to_vec();
+    classes.sort_by(|a, b| a.partial_cmp(b).unwrap());
+    classes.dedup();
+    let trees_json = o.json["trees"].as_array().cloned().unwrap_or_default();
+    if trees_json.len() != n_trees {
+        mc::violation(format!("{}:tree-count", site), format!("{}: forest holds {} trees, n_trees={}", ctx, trees_json.len(), n_trees));
+        return;
+    }
+    let qm: DM = dm(q);
+    let mut member: Vec<Vec<f64>> = Vec::new();
+    for (t, tj) in trees_json.iter().enumerate() {
+        match serde_json::from_value::<DecisionTreeClassifier<f64>>(tj.clone()) {
+            Ok(tree) => match mc::guard(|| tree.predict(&qm)) {
+                Ok(Ok(p)) => member.push(p),
+                _ => {
+                    mc::violation(format!("{}:member-tree-unusable", site), format!("{}: member tree {} cannot predict", ctx, t));
+                    return;
+                }
+            },
+            Err(e) => {
+                mc::violation(format!("{}:member-tree-unusable", site), format!("{}: member tree {} does not deserialise: {}", ctx, t, e));
+                return;
+            }
+        }
+    }
+    let plurality_ok = |votes: &[f64], got: f64| -> bool {
+        let cnt = |c: f64| votes.iter().filter(|v| **v == c).count();
+        let best = classes.iter().map(|c| cnt(*c)).max().unwrap_or(0);
+        classes.contains(&got) && cnt(got) == best
+    };
+    for i in 0..q.len() {
+        let votes: Vec<f64> = member.iter().map(|m| m[i]).collect();
+        if !classes.contains(&o.pred[i]) {
+            mc::violation(format!("{}:label-not-original", site), format!("{}: prediction {} for {:?} is not one of the labels {:?}", ctx, o.pred[i], q[i], classes));
+            return;
+        }
+        if !plurality_ok(&votes, o.pred[i]) {
+            mc::violation(format!("{}:not-plurality", site), format!("{}: forest predicts {} for {:?} but member trees vote {:?}", ctx, o.pred[i], q[i], votes));
+            return;
+        }
+        if votes.iter().any(|v| *v != votes[0]) {
+            mc::count("rows_with_disagreeing_trees");
+        }
+    }
+    if keep {
+        let Some(samples) = jbools(&o.json["samples"]) else {
+            mc::violation(format!("{}:samples-missing", site), format!("{}: keep_samples=true but no samples stored", ctx));
+            return;
+        };
+        if samples.len() != n_trees || samples.iter().any(|s| s.len() != n) {
+            mc::violation(format!("{}:samples-shape", site), format!("{}: samples has shape {}x{:?}", ctx, samples.len(), samples.first().map(|s| s.len())));
+            return;
+        }
+        for (t, s) in samples.iter().enumerate() {
+            for c in &classes {
+                if !(0..n).any(|i| s[i] && y[i] == *c) {
+                    mc::violation(format!("{}:bootstrap-misses-class", site), format!("{}: bootstrap sample of tree {} ({:?}) contains no row of class {}", ctx, t, s, c));
+                }
+            }
+        }
+        match &o.oob {
+            None => mc::violation(format!("{}:oob-unavailable", site), format!("{}: predict_oob failed although samples were kept", ctx)),
+            Some(oob) => {
+                for i in 0..n {
+                    let votes: Vec<f64> = (0..n_trees).filter(|t| !samples[*t][i]).map(|t| member[t][i]).collect();
+                    if votes.is_empty() {
+                        mc::count("oob_rows_without_tree");
+                        continue;
+                    }
+                    mc::count("oob_rows_checked");
+                    if votes.len() < n_trees {
+                        mc::count("oob_rows_partial");
+                    }
+                    if !plurality_ok(&votes, oob[i]) {
+                        mc::violation(format!("{}:oob-not-plurality-of-oob-trees", site), format!("{}: OOB prediction {} for row {} but its out-of-bag trees vote {:?} (all trees: {:?}, masks {:?})", ctx, oob[i], i, votes, member.iter().map(|m| m[i]).collect::<Vec<_>>(), samples.iter().map(|s| s[i]).collect::<Vec<_>>()));
+                        return;
+                    }
+                }
+            }
+        }
+    } else if o.oob.is_some() {
+        mc::count("oob_without_samples");
+    }
+}
+
+#[allow(clippy::too_many_arguments)]
+fn check_regressor(site: &str, ctx: &str, rows: &[Vec<f64>], y: &[f64], n_trees: usize, keep: bool, o: &Obs, q: &[Vec<f64>]) {
+    let n = rows.len();
+    let trees_json = o.json["trees"].as_array().cloned().unwrap_or_default();
+    if trees_json.len() != n_trees {
+        mc::violation(format!("{}:tree-count", site), format!("{}: forest holds {} trees, n_trees={}", ctx, trees_json.len(), n_trees));
+        return;
+    }
+    let qm: DM = dm(q);
+    let mut member: Vec<Vec<f64>> = Vec::new();
+    for (t, tj) in trees_json.iter().enumerate() {
+        match serde_json::from_value::<DecisionTreeRegressor<f64>>(tj.clone()) {
+            Ok(tree) => match mc::guard(|| tree.predict(&qm)) {
+                Ok(Ok(p)) => member.push(p),
+                _ => {
+                    mc::violation(format!("{}:member-tree-unusable", site), format!("{}: member tree {} cannot predict", ctx, t));
+                    return;
+                }
+            },
+            Err(e) => {
+                mc::violation(format!("{}:member-tree-unusable", site), format!("{}: member tree {} does not deserialise: {}", ctx, t, e));
+                return;
+            }
+        }
+    }
+    let (lo, hi) = (y.iter().cloned().fold(f64::INFINITY, f64::min), y.iter().cloned().fold(f64::NEG_INFINITY, f64::max));
+    let span = (hi - lo).abs().max(hi.abs()).max(1.0);
+    for i in 0..q.len() {
+        let vals: Vec<f64> = member.iter().map(|m| m[i]).collect();
+        let mean = vals.iter().sum::<f64>() / n_trees as f64;
+        if !((o.pred[i] - mean).abs() <= 1e-12 * span) {
+            mc::violation(format!("{}:not-mean", site), format!("{}: forest predicts {} for {:?} but the mean of its member trees {:?} is {}", ctx, o.pred[i], q[i], vals, mean));
+            return;
+        }
+        if !(o.pred[i] >= lo - 1e-12 * span && o.pred[i] <= hi + 1e-12 * span) {
+            mc::violation(format!("{}:out-of-target-range", site), format!("{}: prediction {} for {:?} outside the range [{}, {}] of the training targets", ctx, o.pred[i], q[i], lo, hi));
+            return;
+        }
+    }
+    if keep {
+        let Some(samples) = jbools(&o.json["samples"]) else {
+            mc::violation(format!("{}:samples-missing", site), format!("{}: keep_samples=true but no samples stored", ctx));
+            return;
+        };
+        if samples.len() != n_trees || samples.iter().any(|s| s.len() != n) {
+            mc::violation(format!("{}:samples-shape", site), format!("{}: samples has shape {}x{:?}", ctx, samples.len(), samples.first().map(|s| s.len())));
+            return;
+        }
+        match &o.oob {
+            None => mc::violation(format!("{}:oob-unavailable", site), format!("{}: predict_oob failed although samples were kept", ctx)),
+            Some(oob) => {
+                for i in 0..n {
+                    let vals: Vec<f64> = (0..n_trees).filter(|t| !samples[*t][i]).map(|t| member[t][i]).collect();
+                    if vals.is_empty() {
+                        mc::count("oob_rows_without_tree");
+                        continue;
+                    }
+                    mc::count("oob_rows_checked");
+                    if vals.len() < n_trees {
+                        mc::count("oob_rows_partial");
+                    }
+                    let mean = vals.iter().sum::<f64>() / vals.len() as f64;
+                    if !((oob[i] - mean).abs() <= 1e-12 * span) {
+                        mc::violation(format!("{}:oob-not-mean-of-oob-trees", site), format!("{}: OOB prediction {} for row {} but the mean of its out-of-bag trees {:?} is {}", ctx, oob[i], i, vals, mean));
+                        return;
+                    }
+                }
+            }
+        }
+    }
+}
+
+const LIMITS: &[(Option<u16>, usize, usize)] = &[(None, 1, 2), (Some(1), 1, 2), (Some(2), 2, 2), (None, 2, 4), (None, 3, 2), (Some(3), 1, 5)];
+
+fn fit_classifier(x: &DM, y: &Vec<f64>, q: &[Vec<f64>], p: RandomForestClassifierParameters) -> Result<Obs, String> {
+    let keep = p.keep_samples;
+    let m = RandomForestClassifier::fit(x, y, p).map_err(|e| e.to_string())?;
+    let qm: DM = dm(q);
+    let pred = m.predict(&qm).map_err(|e| e.to_string())?;
+    let oob = if keep { m.predict_oob(x).ok() } else { m.predict_oob(x).ok() };
+    Ok(Obs { json: serde_json::to_value(&m).map_err(|e| e.to_string())?, pred, oob })
+}
+
+fn fit_regressor(x: &DM, y: &Vec<f64>, q: &[Vec<f64>], p: RandomForestRegressorParameters) -> Result<Obs, String> {
+    let m = RandomForestRegressor::fit(x, y, p).map_err(|e| e.to_string())?;
+    let qm: DM = dm(q);
+    let pred = m.predict(&qm).map_err(|e| e.to_string())?;
+    let oob = m.predict_oob(x).ok();
+    Ok(Obs { json: serde_json::to_value(&m).map_err(|e| e.to_string())?, pred, oob })
+}
+
+fn cparams(crit: usize, lim: (Option<u16>, usize, usize), n_trees: usize, m: Option<usize>, keep: bool, seed: u64) -> RandomForestClassifierParameters {
+    let mut p = RandomForestClassifierParameters::default()
+        .with_criterion([SplitCriterion::Gini, SplitCriterion::Entropy, SplitCriterion::ClassificationError][crit].clone())
+        .with_min_samples_leaf(lim.1)
+        .with_min_samples_split(lim.2)
+        .with_n_trees(n_trees as u16)
+        .with_keep_samples(keep)
+        .with_seed(seed);
+    p.max_depth = lim.0;
+    p.m = m;
+    p
+}
+
+fn rparams(lim: (Option<u16>, usize, usize), n_trees: usize, m: Option<usize>, keep: bool, seed: u64) -> RandomForestRegressorParameters {
+    let mut p = RandomForestRegressorParameters::default().with_min_samples_leaf(lim.1).with_min_samples_split(lim.2).with_n_trees(n_trees).with_keep_samples(keep).with_seed(seed);
+    p.max_depth = lim.0;
+    p.m = m;
+    p
+}
+
+fn seeded_case(job: &Job) {
+    let cat = catalogue();
+    let (name, rows, labels, targets) = &cat[job.u("data")];
+    let regression = job.b("regression");
+    let n_trees = job.u("n_trees");
+    let p = rows[0].len();
+    let nseeds = job.u("seeds");
+    let seed = job.u("seed0") as u64 + mc::choose(nseeds) as u64;
+    let m = match mc::choose(p + 1) {
+        0 => None,
+        k => Some(k),
+    };
+    let lim = mc::pick(LIMITS);
+    let keep = mc::choose(2) == 0;
+    let crit = if regression { 0 } else { mc::choose(3) };
+    let x: DM = dm(rows);
+    let q = queries(rows);
+    let y = if regression { targets.clone() } else { labels.clone() };
+    let ctx = format!("data {} ({} rows, p={}) {} seed={} n_trees={} m={:?} max_depth={:?} min_samples_leaf={} min_samples_split={} keep_samples={} criterion#{}", name, rows.len(), p, if regression { "regressor" } else { "classifier" }, seed, n_trees, m, lim.0, lim.1, lim.2, keep, crit);
+    let site = if regression { "forest.regressor:seeded" } else { "forest.classifier:seeded" };
+    let fit = || {
+        if regression {
+            fit_regressor(&x, &y, &q, rparams(lim, n_trees, m, keep, seed))
+        } else {
+            fit_classifier(&x, &y, &q, cparams(crit, lim, n_trees, m, keep, seed))
+        }
+    };
+    let (a, b) = match (mc::guard(fit), mc::guard(fit)) {
+        (Ok(Ok(a)), Ok(Ok(b))) => (a, b),
+        (Err(p), _) | (_, Err(p)) => {
+            mc::violation(format!("{}:panic", site), format!("{}: {}", ctx, p.brief()));
+            return;
+        }
+        (Ok(Err(e)), _) | (_, Ok(Err(e))) => {
+            mc::violation(format!("{}:error", site), format!("{}: {}", ctx, e));
+            return;
+        }
+    };
+    let same_bits = |u: &[f64], v: &[f64]| u.len() == v.len() && u.iter().zip(v).all(|(p, q)| p.to_bits() == q.to_bits());
+    if a.json != b.json {
+        mc::violation(format!("{}:not-reproducible", site), format!("{}: two fits with equal data, parameters and seed serialise differently", ctx));
+    } else if !same_bits(&a.pred, &b.pred) || a.oob.as_ref().map(|v| v.iter().map(|x| mc::hash::canon_bits(*x)).collect::<Vec<_>>()) != b.oob.as_ref().map(|v| v.iter().map(|x| mc::hash::canon_bits(*x)).collect::<Vec<_>>()) {
+        mc::violation(format!("{}:predictions-not-reproducible", site), format!("{}: two identical fits predict differently", ctx));
+    }
+    if regression {
+        check_regressor(site, &ctx, rows, &y, n_trees, keep, &a, &q);
+    } else {
+        check_classifier(site, &ctx, rows, &y, n_trees, keep, &a, &q);
+    }
+    mc::count("seeded_fits");
+    mc::nontrivial();
+    mc::outcome(mc::hash::mix(mc::hash::h_f64s(&a.pred), mc::hash::h_str(&a.json["samples"].to_string())));
+    mc::describe(|| json!({"op": "forest fit (seeded RNG)", "context": ctx, "predictions_on_queries": a.pred, "oob": a.oob, "samples": a.json["samples"]}));
+}
+
+fn bootstrap_case(job: &Job) {
+    let regression = job.b("regression");
+    let n_trees = job.u("n_trees");
+    // tiny data: n = 4 (2+2 classes), p = 1 or 2
+    let p = job.u("p");
+    let variant = job.u("variant");
+    let rows: Vec<Vec<f64>> = match (p, variant) {
+        (1, 0) => vec![vec![0.0], vec![1.0], vec![2.0], vec![3.0]],
+        (1, 1) => vec![vec![1.0], vec![0.0], vec![1.0], vec![2.0]],
+        (1, _) => vec![vec![2.0], vec![2.0], vec![0.0], vec![1.0]],
+        (_, 0) => vec![vec![0.0, 1.0], vec![1.0, 0.0], vec![1.0, 1.0], vec![0.0, 0.0]],
+        (_, 1) => vec![vec![0.0, 2.0], vec![1.0, 2.0], vec![2.0, 0.0], vec![2.0, 1.0]],
+        (_, _) => vec![vec![0.0, 0.0], vec![0.0, 1.0], vec![1.0, 0.0], vec![1.0, 1.0]],
+    };
+    let labels = [vec![-3.0, 7.0, -3.0, 7.0], vec![7.0, 7.0, -3.0, -3.0], vec![-3.0, 7.0, 7.0, -3.0]][mc::choose(3)].clone();
+    let targets = [vec![0.0, 1.0, 3.0, 1.0], vec![5.0, 5.0, 0.0, 2.0]][if regression { mc::choose(2) } else { 0 }].clone();
+    let m = if p == 2 && job.b("subsample") { Some(1) } else { Some(p) };
+    let lim = LIMITS[if job.b("limits") { 1 + mc::choose(2) } else { 0 }];
+    let x: DM = dm(&rows);
+    let q = queries(&rows);
+    let y = if regression { targets } else { labels };
+    own_rng(RngMode::All);
+    let r = mc::guard(|| if regression { fit_regressor(&x, &y, &q, rparams(lim, n_trees, m, true, 7)) } else { fit_classifier(&x, &y, &q, cparams(0, lim, n_trees, m, true, 7)) });
+    let draws = take_draws();
+    release_rng();
+    let boot: Vec<usize> = draws.iter().filter(|d| d.0 == Draw::ForestClassifierBootstrap || d.0 == Draw::ForestRegressorBootstrap).map(|d| d.2).collect();
+    let shuf: Vec<usize> = draws.iter().filter(|d| d.0 == Draw::TreeFeatureShuffle).map(|d| d.2).collect();
+    let ctx = format!("rows {:?} y {:?} {} n_trees={} m={:?} limits={:?} bootstrap draws {:?} feature-shuffle draws {:?}", rows, y, if regression { "regressor" } else { "classifier" }, n_trees, m, lim, boot, shuf);
+    let site = if regression { "forest.regressor:any-bootstrap" } else { "forest.classifier:any-bootstrap" };
+    let o = match r {
+        Err(pn) => {
+            mc::violation(format!("{}:panic", site), format!("{}: {}", ctx, pn.brief()));
+            return;
+        }
+        Ok(Err(e)) => {
+            mc::violation(format!("{}:error", site), format!("{}: {}", ctx, e));
+            return;
+        }
+        Ok(Ok(o)) => o,
+    };
+    if boot.len() != 4 * n_trees {
+        mc::violation(format!("{}:bootstrap-draw-count", site), format!("{}: expected {} bootstrap draws, saw {}", ctx, 4 * n_trees, boot.len()));
+    }
+    // the stored in-bag masks must be the ones the draws produced
+    if let Some(samples) = jbools(&o.json["samples"]) {
+        let mut want: Vec<Vec<bool>> = Vec::new();
+        let mut it = draws.iter().filter(|d| d.0 == Draw::ForestClassifierBootstrap || d.0 == Draw::ForestRegressorBootstrap);
+        let mut classes: Vec<f64> = y.clone();
+        classes.sort_by(|a, b| a.partial_cmp(b).unwrap());
+        classes.dedup();
+        for _ in 0..n_trees {
+            let mut mask = vec![false; 4];
+            if regression {
+                for _ in 0..4 {
+                    if let Some(d) = it.next() {
+                        mask[d.2] = true;
+                    }
+                }
+            } else {
+                for c in &classes {
+                    let idx: Vec<usize> = (0..4).filter(|i| y[*i] == *c).collect();
+                    for _ in 0..idx.len() {
+                        if let Some(d) = it.next() {
+                            if d.2 < idx.len() {
+                                mask[idx[d.2]] = true;
+                            }
+                        }
+                    }
+                }
+            }
+            want.push(mask);
+        }
+        if samples != want && boot.len() == 4 * n_trees {
+            mc::violation(format!("{}:in-bag-mask", site), format!("{}: stored in-bag masks {:?} differ from the rows actually drawn {:?}", ctx, samples, want));
+        }
+    }
+    if regression {
+        check_regressor(site, &ctx, &rows, &y, n_trees, true, &o, &q);
+    } else {
+        check_classifier(site, &ctx, &rows, &y, n_trees, true, &o, &q);
+    }
+    if !shuf.is_empty() {
+        mc::count("feature_shuffles_explored");
+    }
+    mc::count("bootstrap_schedules");
+    mc::nontrivial();
+    mc::outcome(mc::hash::mix(mc::hash::h_f64s(&o.pred), mc::hash::h_str(&o.json["samples"].to_string())));
+    mc::describe(|| json!({"op": "forest fit (every bootstrap outcome)", "context": ctx, "predictions_on_queries": o.pred, "oob": o.oob, "samples": o.json["samples"]}));
+}
+
+impl Harness for C06 {
+    fn id(&self) -> &'static str {
+        "C06"
+    }
+
+    fn plan(&self, tier: Tier, seed: u64) -> Plan {
+        let t = tier.is_thorough();
+        let mut jobs = Vec::new();
+        // (b) every bootstrap outcome of tiny forests
+        for regression in [false, true] {
+            for n_trees in [1usize, 2] {
+                for p in [1usize, 2] {
+                    for subsample in [false, true] {
+                        if subsample && p == 1 {
+                            continue;
+                        }
+                        for limits in [false, true] {
+                            if regression && n_trees == 2 && !t && (subsample || limits || p == 2) {
+                                continue; // 65536 bootstraps x shuffles: thorough only
+                            }
+                            for variant in 0..3usize {
+                                jobs.push(Job::new(
+                                    format!("bootstrap-{}-t{}-p{}{}{}-v{}", if regression { "reg" } else { "cls" }, n_trees, p, if subsample { "-m1" } else { "" }, if limits { "-lim" } else { "" }, variant),
+                                    json!({"kind": "bootstrap", "regression": regression, "n_trees": n_trees, "p": p, "subsample": subsample, "limits": limits, "variant": variant}),
+                                ));
+                            }
+                        }
+                    }
+                }
+            }
+        }
+        // (a) seeds as configurations; VERIF_SEED rotates which block of seeds is enumerated
+        let nseeds = if t { 512 } else { 24 };
+        let seed0 = (seed % 8) * 4096;
+        let block = 8usize;
+        for (di, _) in catalogue().iter().enumerate() {
+            for regression in [false, true] {
+                for n_trees in [1usize, 2, 3, 5, 10, 30] {
+                    if !t && n_trees == 30 && di != 1 {
+                        continue;
+                    }
+                    for b in 0..(nseeds / block) {
+                        jobs.push(Job::new(
+                            format!("seeded-{}-d{}-t{}-s{}", if regression { "reg" } else { "cls" }, di, n_trees, b),
+                            json!({"kind": "seeded", "data": di, "regression": regression, "n_trees": n_trees, "seed0": seed0 as usize + b * block, "seeds": block}),
+                        ));
+                    }
+                }
+            }
+        }
+        Plan {
+            jobs,
+            budget_s: if t { 2400 } else { 40 },
+            case_deadline_ms: 20_000,
+            floors: vec![("seeded_fits", 10_000), ("bootstrap_schedules", 10_000), ("feature_shuffles_explored", 1000), ("oob_rows_checked", 10_000), ("oob_rows_partial", 1000), ("rows_with_disagreeing_trees", 1000)],
+            bounds: json!({
+                "seeded": format!("6 lattice data sets x {{classifier, regressor}} x seeds {}..{} x n_trees {{1,2,3,5,10,30}} x m in {{None,1..p}} x 6 (max_depth, min_samples_leaf, min_samples_split) settings x keep_samples x 3 criteria", seed0, seed0 as usize + nseeds),
+                "bootstrap": "n=4 rows (2+2 classes / 2 target vectors), 3 layouts per p in {1,2}, n_trees in {1,2}, m in {p, 1}: EVERY bootstrap outcome (16 per classifier tree, 256 per regressor tree) and every feature-subsampling shuffle",
+            }),
+        }
+    }
+
+    fn run(&self, job: &Job) {
+        match job.kind() {
+            "seeded" => seeded_case(job),
+            "bootstrap" => bootstrap_case(job),
+            other => panic!("unknown job kind {}", other),
+        }
+    }
+
+    fn cleanup(&self) {
+        release_rng();
+    }
+
+    fn rule(&self) -> String {
+        "one execution = one (data set, estimator, seed, n_trees, m, limits, keep_samples, criterion) fitted twice with the real seeded RNG, or one complete bootstrap/feature-shuffle answer sequence of a tiny forest; non-trivial = a forest was returned and its aggregation checked against its deserialised member trees; distinct = digest of (predictions, in-bag masks)".into()
+    }
+
+    fn assumptions(&self) -> Vec<String> {
+        vec![
+            "member trees are recovered through serde (forest -> JSON -> DecisionTree*), so serde round-trip fidelity of trees is trusted here (it is C19's subject)".into(),
+            "seeds beyond the enumerated block are not explored (the StdRng stream is a black box); the bootstrap-schedule exploration covers all draws for n=4".into(),
+            "OOB rows with no out-of-bag tree are skipped (the statement says nothing about them)".into(),
+            "the RNG call sites of /repo/src equal /verif/rng_sites.allow (checked at start-up)".into(),
+        ]
+    }
+}
+
 fn main() {
-    eprintln!("MACHINERY-ERROR: harness C06 not built yet");
-    std::process::exit(2);
+    if let Err(e) = mc_sc::check_rng_sites() {
+        eprintln!("MACHINERY-ERROR: {}", e);
+        std::process::exit(2);
+    }
+    mc::main(C06)
 }
